@@ -58,9 +58,14 @@ Definition InvClosed (l0 : ledger) (a : auction) (l : ledger) : Prop :=
   status a = 2 /\
   exists w amt rest, bidder a = Some w /\ bids a = (w, amt) :: rest /\ 0 <= w /\
     l MOD (bid_denom a) = l0 MOD (bid_denom a) /\
-    forall acct d, 0 <= acct -> l acct d = l0 acct d
+    (forall acct d, 0 <= acct -> l acct d = l0 acct d
         + (if (acct =? w) && (d =? lot_denom a) then Z.max 0 (sell a) else 0)
-        - (if (acct =? w) && (d =? bid_denom a) then buy a else 0).
+        - (if (acct =? w) && (d =? bid_denom a) then buy a else 0)) /\
+    (* generation-2 surplus: the lot came out of the generation-1 auction module account, where the
+       start put it - that account is out of exactly the lot - and the collector was left alone *)
+    (var a = V2S ->
+       (forall d, l AUC1 d = l0 AUC1 d - (if d =? lot_denom a then sell a else 0)) /\
+       (forall d, l COLL d = l0 COLL d)).
 
 Definition Inv (l0 : ledger) (s : state) : Prop :=
   bid_denom (fst s) <> lot_denom (fst s) /\
@@ -170,7 +175,7 @@ Proof.
   destruct (bids a) as [|[w' x] rest] eqn:Hbs; [contradiction|]. destruct Hbids as [<- Hw].
   unfold paid in Hl. rewrite Hbd in Hl.
   unfold close, lift.
-  destruct (var a);
+  destruct (var a) eqn:Hv;
     repeat match goal with
            | |- context[if negb tm then _ else _] => destruct tm; cbn [negb]; [|discriminate]
            | |- context[match send ?l ?f ?t ?d ?x with _ => _ end] =>
@@ -182,23 +187,21 @@ Proof.
            end;
     intros E; injection E as <- <-;
     (split; [|split; reflexivity]);
-    (split; [reflexivity|]); exists w, x, rest; cbn [set_closed bidder bids bid_denom lot_denom sell buy];
-    (split; [exact Hbd|]); (split; [exact Hbs|]); (split; [exact Hw|]).
-  - (* V1S *) split.
-    + rewrite S1, S0, S, Hl. unfold MOD, TM in *. eqb_cases; lia.
-    + intros acct d Ha. rewrite S1, S0, S, Hl. unfold MOD, TM in *. eqb_cases; lia.
-  - (* V1D *) split.
-    + rewrite S. destruct (Z.gtb_spec (sell a) 0); rewrite ?mint_spec, Hl; unfold MOD, COLL in *; eqb_cases; lia.
-    + intros acct d Ha. rewrite S. destruct (Z.gtb_spec (sell a) 0); rewrite ?mint_spec, Hl; unfold MOD, COLL in *; eqb_cases; lia.
-  - (* V2S *) split.
-    + rewrite S2, S1, S0, S, Hl. unfold MOD, TM, COLL in *. eqb_cases; lia.
-    + intros acct d Ha. rewrite S2, S1, S0, S, Hl. unfold MOD, TM, COLL in *. eqb_cases; lia.
-  - (* V2X *) split.
-    + rewrite S0, S, Hl. unfold MOD, EXT in *. eqb_cases; lia.
-    + intros acct d Ha. rewrite S0, S, Hl. unfold MOD, EXT in *. eqb_cases; lia.
-  - (* V2D *) split.
-    + rewrite S. destruct (Z.gtb_spec (sell a) 0); rewrite ?mint_spec, Hl; unfold MOD, COLL in *; eqb_cases; lia.
-    + intros acct d Ha. rewrite S. destruct (Z.gtb_spec (sell a) 0); rewrite ?mint_spec, Hl; unfold MOD, COLL in *; eqb_cases; lia.
+    (split; [reflexivity|]); exists w, x, rest; cbn [set_closed bidder bids bid_denom lot_denom sell buy var];
+    (split; [exact Hbd|]); (split; [exact Hbs|]); (split; [exact Hw|]);
+    rewrite Hv; (split; [|split; [|try discriminate]]).
+  - (* V1S *) rewrite S1, S0, S, Hl. unfold MOD, TM in *. eqb_cases; lia.
+  - intros acct d Ha. rewrite S1, S0, S, Hl. unfold MOD, TM in *. eqb_cases; lia.
+  - (* V1D *) rewrite S. destruct (Z.gtb_spec (sell a) 0); rewrite ?mint_spec, Hl; unfold MOD, COLL in *; eqb_cases; lia.
+  - intros acct d Ha. rewrite S. destruct (Z.gtb_spec (sell a) 0); rewrite ?mint_spec, Hl; unfold MOD, COLL in *; eqb_cases; lia.
+  - (* V2S *) rewrite S2, S1, S0, S, Hl. unfold MOD, TM, AUC1 in *. eqb_cases; lia.
+  - intros acct d Ha. rewrite S2, S1, S0, S, Hl. unfold MOD, TM, AUC1 in *. eqb_cases; lia.
+  - (* V2S: the lot source is out of exactly the lot, the collector is untouched *)
+    intros _. split; intros d; rewrite S2, S1, S0, S, Hl; unfold MOD, TM, AUC1, COLL in *; eqb_cases; lia.
+  - (* V2X *) rewrite S0, S, Hl. unfold MOD, EXT in *. eqb_cases; lia.
+  - intros acct d Ha. rewrite S0, S, Hl. unfold MOD, EXT in *. eqb_cases; lia.
+  - (* V2D *) rewrite S. destruct (Z.gtb_spec (sell a) 0); rewrite ?mint_spec, Hl; unfold MOD, COLL in *; eqb_cases; lia.
+  - intros acct d Ha. rewrite S. destruct (Z.gtb_spec (sell a) 0); rewrite ?mint_spec, Hl; unfold MOD, COLL in *; eqb_cases; lia.
 Qed.
 
 Lemma restart_inv l0 a l now :
@@ -251,7 +254,7 @@ Qed.
 Lemma inv_custody l0 s : Inv l0 s ->
   snd s MOD (bid_denom (fst s)) - l0 MOD (bid_denom (fst s)) = held (fst s).
 Proof.
-  destruct s as [a l]. intros [Hd [(Hst & Hbuy & Hsb & Hbids & Hl)|(Hc & w & x & rest & Hb & _ & Hw & Hm & _)]]; cbn [fst snd] in *.
+  destruct s as [a l]. intros [Hd [(Hst & Hbuy & Hsb & Hbids & Hl)|(Hc & w & x & rest & Hb & _ & Hw & Hm & _ & _)]]; cbn [fst snd] in *.
   - unfold held. destruct (Z.eqb_spec (status a) 2); [lia|].
     rewrite Hl. unfold paid. unfold MOD. destruct (bidder a) as [w|]; [|eqb_cases; lia].
     destruct (bids a) as [|[w' ?] ?]; [contradiction|]. destruct Hbids as [<- Hw]. eqb_cases; lia.
@@ -261,6 +264,21 @@ Qed.
 Lemma inv_holds_custody l0 s : Inv l0 s ->
   holds_C11_custody (fst s) (l0 MOD (bid_denom (fst s))) (snd s MOD (bid_denom (fst s))) = true.
 Proof. intros H. unfold holds_C11_custody. rewrite (inv_custody l0 s H). apply Z.eqb_refl. Qed.
+
+(* the executable lot-source predicate follows from the invariant: the generation-1 auction module
+   account and the collector are untouched while the auction is open; the close takes the lot from
+   the former, once, and leaves the latter alone *)
+Lemma inv_holds_source l0 s : Inv l0 s ->
+  holds_C11_source (fst s) (l0 AUC1 (lot_denom (fst s))) (l0 COLL (lot_denom (fst s)))
+                   (snd s AUC1 (lot_denom (fst s))) (snd s COLL (lot_denom (fst s))) = true.
+Proof.
+  destruct s as [a l]. intros [Hd [(Hst & Hbuy & Hsb & Hbids & Hl)|(Hc & w & x & rest & Hb & _ & Hw & Hm & _ & Hsrc)]]; cbn [fst snd] in *;
+    unfold holds_C11_source; destruct (var a) eqn:Hv; try reflexivity.
+  - destruct (Z.eqb_spec (status a) 2); [lia|]. rewrite !Hl. unfold paid, MOD, AUC1, COLL.
+    destruct (bidder a) as [w|]; [|eqb_cases; lia].
+    destruct (bids a) as [|[w' ?] ?]; [contradiction|]. destruct Hbids as [<- Hw]. eqb_cases; lia.
+  - rewrite Hc. cbn. destruct (Hsrc eq_refl) as [HA HC]. rewrite HA, HC, Z.eqb_refl. lia.
+Qed.
 
 (* an accepted bid: it improves on the standing one, and the outbid bidder is made whole in the
    same step *)
